@@ -49,6 +49,20 @@ pub fn run(w: &SqlWitness, cfg: SessionConfig) -> Result<Vec<Row>, String> {
             Some(l) => register_db_layout(&ctx, &w.db, l).map_err(|e| e.to_string())?,
             None => register_db(&ctx, &w.db, 1, 8192, &mut vcommon::Rng::new(1)).map_err(|e| e.to_string())?,
         }
+        if std::env::var("DFV_EXPLAIN").is_ok() {
+            let _ = ctx.sql("set datafusion.explain.format = 'indent'").await;
+            if let Ok(df) = ctx.sql(&format!("EXPLAIN VERBOSE {}", w.sql)).await {
+                if let Ok(b) = df.collect().await {
+                    for r in batches_to_rows(&b) {
+                        if let (Value::Str(k), Value::Str(v)) = (&r[0], &r[1]) {
+                            if v != "SAME TEXT AS ABOVE" && !k.contains("physical_plan") {
+                                println!("--- {k}\n{v}");
+                            }
+                        }
+                    }
+                }
+            }
+        }
         let df = ctx.sql(&w.sql).await.map_err(|e| e.to_string())?;
         let plan = df.clone().create_physical_plan().await.map_err(|e| e.to_string())?;
         println!("{}", datafusion::physical_plan::displayable(plan.as_ref()).indent(false));
